@@ -64,10 +64,10 @@ ROWS = {
        'exactly the payload and rejects wrong version, class and length (unless disabled); ASF: the ping equals the figure, and every well-formed presence pong (Spec.Lan.Pong, from ASF 2.0 3.2.4.3 / IPMI v2.0 table 13-6; all entity / interaction bytes) is accepted and unwrapped to its fields (wellformed_pong_accepted; as shipped pong_interactions_asShipped_counterexample; the variant of check_data is probed on the code); 27 theorems. '
        'Struct formats, constants and the auth dispatch are regenerated from rmcp.py on every run.',
   note='translator harness/translate/rmcp.py; digest function is a parameter of the theorems, hashlib.md5 is trusted and '
-       'cross-checked against a Lean RFC 1321 implementation; CPython struct/array semantics modelled',
+       'cross-checked against a Lean RFC 1321 implementation; CPython struct/array semantics modelled; session 3: the pong the library BUILDS (AsfPong.pack, emulator answers) is parsed by the specification (pong_pack_wellformed, pong_pack_parsed_and_accepted, pong_pack_asShipped_counterexample, pong_pack_asShipped_never_pong, pong_pack_variants; Model/PongPack.lean, variant probed)',
   tech='Lean 4 proof (byte-level refinement to the packet figure) + translator + differential correspondence through a fake socket'),
  'C06': dict(
-  text='38 Lean theorems about the model of establish_session / the retry loop / requests / close_session against a '
+  text='41 Lean theorems about the model of establish_session / the retry loop / requests / close_session against a '
        'reference IPMI v1.5 BMC session state machine: handshake order against ANY peer (ping, Get Channel Auth '
        'Capabilities, Get Session Challenge, Activate Session, Set Session Privilege Level; each at most '
        'max_retries+1 times); for every conforming BMC configuration, every number of requests n and every loss '
@@ -83,7 +83,7 @@ ROWS = {
        'real Rmcp talks through a fake socket to the compiled Lean reference BMC, the same script is replayed to the '
        'model); reference BMC Spec/BmcSession.lean is a reading of IPMI v1.5 6.11-6.12; digest function is a parameter; '
        'random.randrange pinned; keep-alive off (C14), stale frames C04; per-step fault stopping points are checked '
-       'by the run, proved only in the any-peer form',
+       'by the run, proved only in the any-peer form; session 3: credential form (None / str / bytes, user and password independently) x 32 capability subsets with Model/SessionCred.lean (credential_form_intended, credential_form_fields, credential_form_asShipped_counterexample)',
   tech='Lean 4 proof (induction on losses and on n, invariants Live/Chain over a relay abstraction; decide over generated preference tuple) + translator + closed-loop correspondence against the Lean reference BMC'),
  'C09': dict(
   text='Lean theorems for routing paths of every length: the bridged request is a nest of Send Message layers (one per '
@@ -129,10 +129,10 @@ ROWS = {
        'repeats only after node busy; also above the chunk helper: for every transport, every Get (Device) SDR of a record read or a listing carries the id returned by the most recent Reserve of that store (the caller\'s before the first; fresh_reservation_data / _listing / _every_get, counter-example stale_after_renewal_as_shipped); <= 161 exchanges per record; the two loops of pyipmi/sel.py: get_sel_entry <= 33 requests for any script and RetryError after 17 refusals, get_and_clear_sel_entry <= 35 requests per round within its budget (unbounded before fixes 8f8257b / 934f8f8: counter-example theorems sel_entry_unbounded_as_shipped, sel_get_and_clear_unbounded_as_shipped); a refused Reserve (first or renewal) is propagated and is the last call; source_variant equates the variants read from today\'s source with the intended ones; the SEL script alphabet is "completed with k bytes, 0 <= k <= requested": bounded against ANY peer (sel_entry_bounded_any_peer), an empty completed answer ends in RetryError (sel_entry_empty_answer_gives_up; before fix 3d41463 sel_entry_unbounded_on_empty_answers); 43 theorems. Constants, loop tests and call sites are re-read from helper.py/__init__.py on '
        'every run.',
   note='translator harness/translate/loops11.py; Model/Retry.lean hand-written, tied by depth-first exploration of the '
-       'outcome tree (depth 5/8, budgets 1..6) on the real helpers with scripted callables; time.sleep recorded; Model/SdrXfer.lean on a scripted byte-level device, renewed-id variant probed',
+       'outcome tree (depth 5/8, budgets 1..6) on the real helpers with scripted callables; time.sleep recorded; Model/SdrXfer.lean on a scripted byte-level device, renewed-id variant probed; session 3: the outcome alphabet also has N = no answer (the callable raises IpmiTimeoutError): Model/RetryNoAnswer.lean, chunk_/clear_/send_bounded_no_answer, no_answer_propagates_chunk/_clear/_send for every script, reserve plan and budget; SDR/SEL operations with N are judged by the oracle only',
   tech='Lean 4 proof (induction on the budget / outcome stream) + translator + exhaustive outcome-tree correspondence'),
  'C14': dict(
-  text='32 Lean theorems over ALL schedules, EVERY retry budget (max_retries) and EVERY loss pattern of the network, of an interleaving model of one Rmcp interface shared by any number of '
+  text='34 Lean theorems over ALL schedules, EVERY retry budget (max_retries) and EVERY loss pattern of the network, of an interleaving model of one Rmcp interface shared by any number of '
        'application threads, its own keep-alive loop (call_repeatedly: the interval elapses any number of times at '
        'any moment) and one thread that ends with close_session: each caller gets its own reply; exchanges are not '
        'interleaved on the socket; session sequence numbers are strictly increasing over the whole wire log including '
@@ -152,7 +152,7 @@ ROWS = {
        'granularity: source lines and shared-attribute accesses (bytecode-level switches inside a line and GIL '
        'release in C calls are not exhibited); Event.wait(interval) is a virtual timer whose wake-up is a scheduling '
        'decision; exactly one thread closes, after the other application threads have finished; thread START timing '
-       'of call_repeatedly and establish_session (C06) are not explored; one late reply x every <= 2..3-preemption schedule at shared-access granularity is an always-on stream judged on the real code - partial with respect to the CPython runtime',
+       'of call_repeatedly and establish_session (C06) are not explored; one late reply x every <= 2..3-preemption schedule at shared-access granularity is an always-on stream judged on the real code - partial with respect to the CPython runtime; session 3: monitor clause (W) wholeExchanges (the datagrams of one call - request and its retransmissions - are consecutive on the wire), judged on every schedule; lock hand-off sweep (fair FIFO / preempt after release); whole_exchange_owned_by_its_caller, release_in_retry_handler_counterexample; an all-schedules (W) theorem for the model is not proved (the model keeps no per-call datagram record; it proves mutual_exclusion with the retry loop inside the lock block)',
   tech='Lean 4 proof (three inductive invariants over all schedules of a step relation, termination measure, counter-example by decide for the shipped stopper) + AST translator of the lock/packing/loop/stopper/close shape + trace-inclusion validation on really scheduled threads including stop timing'),
  'C15': dict(
   text='Lean theorems: parse(encode img) = img for every abstract FRU image (all areas, four text encodings, custom '
@@ -187,16 +187,16 @@ ROWS = {
   note='IEEE-754 rounding of the Python arithmetic is modelled, not verified (model is exact Rat; near-half cases counted '
        'as ambiguous); transcendental functions are parameters; linearisation table regenerated each run; expression '
        'translator harness/translate/sdrexpr.py (fail closed; int(round()) an opaque cut); control skeleton (guard '
-       'order, M = 0, None) and round() hand-written in Model/Sensor.lean, tied by the differential run',
+       'order, M = 0, None) and round() hand-written in Model/Sensor.lean, tied by the differential run; session 3: histories on one mutable record object (construction path x re-assignment of factors x re-decoding x interleaved conversions) with the Lean history model Sensor.runHistory (history_forward_current, history_roundtrip_current, history_split, history_other_irrelevant)',
   tech='Lean 4 proof (field arithmetic over Rat, case analysis on formats, definitional equality with AST-generated expressions) + AST expression translator + differential correspondence'),
  'C18': dict(
-  text='19 Lean theorems: parse(encode image) = image for every well-formed HPM.1 image (header, components, every action '
+  text='25 Lean theorems: parse(encode image) = image for every well-formed HPM.1 image (header, components, every action '
        'record with exactly its firmware bytes), and for every binary, block size and device behaviour the upload '
        'sends the bytes once, in order, in blocks <= block size numbered mod 256 from 0, polls status after '
        '"long duration in progress" and goes on only when the status reports 00h (a final failure code or 80h still pending at the time-out stops the upload with HpmError, no further block: upload_stops, upload_aborts_long_failure, upload_aborts_long_timeout), aborts with HpmError on any other code; OEM header data 0..255 bytes incl. the empty one. Offsets, lengths, block size, masks and '
        'codes are regenerated from hpm.py on every run (fail closed).',
   note='translator harness/translate/hpm.py; virtual clock; MD5 trailer is a parameter; three parser flags and one upload flag (as shipped / intended) probed on the real code, counter-example theorems for the as-shipped ones; reference device whose long duration commands end with a final code reported in Get Upgrade Status; time-outs of a block are outside the quantifier (observation); tie by differential run with an '
-       'independent image encoder cross-checked against the Lean encoder; histories of 2..5 images written and parsed in one process (same path / same size / pinned mtime / other paths, through UpgradeImage, Hpm.open_upgrade_image and get_upgrade_version_from_file), each run in a pristine forked child (harness/sim/pristine.py), kept results re-read at the end',
+       'independent image encoder cross-checked against the Lean encoder; histories of 2..5 images written and parsed in one process (same path / same size / pinned mtime / other paths, through UpgradeImage, Hpm.open_upgrade_image and get_upgrade_version_from_file), each run in a pristine forked child (harness/sim/pristine.py), kept results re-read at the end; session 3: per-block outcome "no answer" (IpmiTimeoutError): oracle Spec.HpmDevice.uploadDelivered (an unanswered request is not delivered and is repeated identically, or the call raises), uploadBinaryR, shipped_upload_skips_silent_block, resend_upload_witness, upload_exact_resend; a general theorem for plans containing silences is not proved (witnesses + equivalence with the proved loop on fully answered plans)',
   tech='Lean 4 proof (parser inversion; upload-loop invariant: sent = prefix of binary) + translator + differential correspondence'),
  'C19': dict(
   text='Lean theorems against a Lean model of POSIX sh word splitting/quoting: for every user/password string without '
@@ -204,16 +204,16 @@ ROWS = {
        'reply parser inverts ipmitool\'s hex printer for any length and wrapping; rsp=0xNN, timeout, connection and '
        'long-password lines map to their errors. String constants regenerated from the source each run.',
   note='translator harness/translate/ipmitool.py; Spec.Sh is validated against the real /bin/sh (dash) on every generated '
-       'command line through an argv-printing stub; ipmitool output format taken from its sources; histories of 2..4 calls on ONE Ipmitool object with credentials / host / privilege / session changed in between, each call judged against the argument vector its CURRENT settings demand (pristine child per history)',
+       'command line through an argv-printing stub; ipmitool output format taken from its sources; histories of 2..4 calls on ONE Ipmitool object with credentials / host / privilege / session changed in between, each call judged against the argument vector its CURRENT settings demand (pristine child per history); session 3: the ping oracle comes from the property text (effective -L / -C, absent -L = ADMINISTRATOR per ipmitool(1)): ping_effective_level_cipher, as_shipped_ping_drops_level_and_cipher, ping_source_is_intended',
   tech='Lean 4 proof (shell-quoting inertness by induction on the string; printer/parser inversion) + translator + correspondence through the real shell'),
  'C20': dict(
-  text='55 Lean theorems over the command table regenerated from pyipmi/ipmitool.py: every entry resolves to an existing '
+  text='63 Lean theorems over the command table regenerated from pyipmi/ipmitool.py: every entry resolves to an existing '
        'operation with an acceptable arity (kernel-decided over the whole generated table; table_is_intended: today\'s table IS the repaired one, so a regression of one entry stops the build), chassis power sub-commands '
        'map to distinct option codes, longest-prefix lookup is correct, getopt separates options as given, raw '
        'sends/prints exactly; every class of pyipmi.errors and a socket time-out, raised by open, a request or close, ends main() with a message and status 1 (error_classes_complete, all_errors_exit_nonzero, main_reports_every_failure); numeric arguments are accepted in decimal and hex at every converting position; the printing handlers raise no Python error on a link-less channel, every SDR type of IPMI ch. 43, sensors flagged unavailable and raw values outside the domain of a non-linear function and non-linear sensors of every linearization byte (70h-7Fh: no value for a tool that reads the record only; sensor_values_no_python_error over all 128 codes, lin model tied to the library on 256 bytes x 3 signs); as-shipped counter-example theorems for each; the LUN argument of all six get_sensor_reading calls of sdr list/show/showall is read from the source and pinned (sensor_reads_today), sdr show of a full record addresses (owner LUN, number) for every record (sdr_show_full_reads_owner_lun). Tie: main() run in-process for every entry against the direct API '
        'call on an identical BMC stub.',
   note='translator harness/translate/cli.py (also reads the except clauses and where close() sits, the classes of errors.py, every int(args[k][, 0]), the handler guards and caught classes, the SDR class table; the hypotheses exitsCover, closeInside, base10Args = [] and the handler guards are evaluated on today\'s source by the driver\'s probe on every run); getopt/int(s,0) modelled in Lean and tied to CPython by the run; stub BMC profiles full / minimal / plain / sdrtypes / nonlinear / unavailable / luns (sensors on owner LUN 0/1/3, same number on two LUNs) with an HPM.1 upgrade agent; a traceback is not counted as a message; "completes '
-       'without a Python error" is checked per entry on the stub profiles (a Python error on a fault-free run is a violation), not proved; histories of 2..4 consecutive main() runs in one process with every option given in one run and absent in the next: each run must equal the same run alone in a new process',
+       'without a Python error" is checked per entry on the stub profiles (a Python error on a fault-free run is a violation), not proved; histories of 2..4 consecutive main() runs in one process with every option given in one run and absent in the next: each run must equal the same run alone in a new process; session 3: -b <channel> (channel_option_takes_effect, no_channel_no_bridge, explicit_routing_kept) judged on the real Rmcp frame and the ipmitool argv, aardvark on/off options judged on recorded adapter writes (aardvark_options_take_effect, 27 combinations); a time-out of an Upload Firmware Block answered by the identical block is by design (C18)',
   tech='Lean 4 proof (decide +kernel over generated table; lookup/getopt lemmas) + translator + differential correspondence (CLI vs API)'),
  'C07': dict(
   text='107 Lean theorems about per-operation models of 79 pyipmi.Ipmi operations (device id/GUID/watchdog, chassis and '
